@@ -148,6 +148,44 @@ mod verif_ctor {
         }
     }
 
+    /// TensorBase::expanded_layout / has_capacity / append (capacity expansion of owned tensors):
+    /// a layout returned for growing `axis` fits the Vec's capacity and maps distinct indices to
+    /// distinct offsets. Concrete small shapes (so the overlap check sorts a concrete length),
+    /// symbolic strides, symbolic axis.
+    macro_rules! expanded_layout_ok {
+        ($name:ident, $shape:expr) => {
+            #[kani::proof]
+            #[kani::unwind(12)]
+            pub fn $name() {
+                let shape: [usize; 2] = $shape;
+                let (s0, s1): (u8, u8) = (kani::any(), kani::any());
+                let strides = [s0 as usize, s1 as usize];
+                let mut data: Vec<u8> = Vec::with_capacity(16);
+                let len: usize = kani::any();
+                kani::assume(len <= 16);
+                data.resize(len, 0);
+                let Ok(t) = NdTensor::<u8, 2>::from_data_with_strides(shape, data, strides) else { return; };
+                let axis: usize = kani::any();
+                kani::assume(axis < 2);
+                let new_size = shape[axis] + 1;
+                if let Some(l) = t.expanded_layout(axis, new_size) {
+                    assert!(l.min_data_len() <= 16, "expanded layout exceeds the capacity");
+                    assert!(l.size(axis) == new_size && l.size(1 - axis) == shape[1 - axis]);
+                    let (i0, i1, j0, j1): (u8, u8, u8, u8) = (kani::any(), kani::any(), kani::any(), kani::any());
+                    let (i, j) = ([i0 as usize, i1 as usize], [j0 as usize, j1 as usize]);
+                    kani::assume(i[0] < l.size(0) && i[1] < l.size(1) && j[0] < l.size(0) && j[1] < l.size(1));
+                    if i[0] != j[0] || i[1] != j[1] {
+                        assert!(l.offset(i) != l.offset(j), "expanded layout aliases two indices of a mutable tensor");
+                        kani::cover!(true);
+                    }
+                }
+            }
+        };
+    }
+    expanded_layout_ok!(expanded_layout_no_alias_1x4, [1, 4]);
+    expanded_layout_ok!(expanded_layout_no_alias_2x2, [2, 2]);
+    expanded_layout_ok!(expanded_layout_no_alias_3x1, [3, 1]);
+
     #[kani::proof]
     pub fn canary() {
         let x: u8 = kani::any();
